@@ -27,7 +27,7 @@ func (pass *SanitizeEnumMemberNames) processEnum(_ *Visitor, _ *ast.Schema, def 
 }
 
 func (pass *SanitizeEnumMemberNames) sanitizeEnumMember(member ast.EnumValue) ast.EnumValue {
-	if member.Type.Scalar.ScalarKind == ast.KindString && member.Name == "" && member.Value.(string) == "" {
+	if value, isString := member.Value.(string); member.Type.Scalar.ScalarKind == ast.KindString && member.Name == "" && isString && value == "" {
 		member.Name = "None"
 	}
 
